@@ -432,8 +432,55 @@ pub fn run(ctx: &Ctx) -> CheckResult {
         });
         res.absorb(merge_jobs(outs));
     }
+    // the same identities for medium periods on tick-grid walks (ties, double tops, a new extreme exactly
+    // when a tied one leaves the window)
+    if !res.out.failed() {
+        let periods: Vec<usize> = (6..=40).collect();
+        let len = if th { 20_000 } else { 3_000 };
+        let outs = par_run(ctx, &periods, |_, &n| {
+            let mut out = JobOut::default();
+            let cmax = Cfg::p1(Kind::Max, n);
+            let cmin = Cfg::p1(Kind::Min, n);
+            for seed in [ctx.seed, ctx.seed.wrapping_add(5)] {
+                let walk = super::refcmp::tick_walk(len, seed, false, false, true);
+                let (mut a, mut b, mut c4) = (make(&cmax), make(&cmin), make(&cmax));
+                out.stats.traces += 1;
+                out.stats.states += 1;
+                out.stats.transitions += 3 * len as u64;
+                for (i, op) in walk.iter().enumerate() {
+                    match op {
+                        Op::S(x) => {
+                            let oa = a.next_s(*x).v[0];
+                            let ob = -b.next_s(-*x).v[0];
+                            let oc = c4.next_s(4.0 * *x).v[0];
+                            out.stats.evaluations += 2;
+                            out.stats.nontrivial += 2;
+                            if !(oa == ob) || !(oc == 4.0 * oa) {
+                                let bad_scale = oa == ob;
+                                out.fail(
+                                    Violation::new(PROP, &cmax, &walk[..=i], if bad_scale { "not-scale-covariant" } else { "max-is-not-neg-min-neg" })
+                                        .obs(f2s(if bad_scale { oc } else { oa }))
+                                        .exp(f2s(if bad_scale { 4.0 * oa } else { ob }))
+                                        .det(if bad_scale { "Maximum(4x) must equal 4*Maximum(x) exactly (power of two)".into() } else { "Maximum(x) must equal -Minimum(-x) exactly".into() }),
+                                );
+                                return out;
+                            }
+                        }
+                        Op::Reset => {
+                            a.reset();
+                            b.reset();
+                            c4.reset();
+                        }
+                        _ => {}
+                    }
+                }
+            }
+            out
+        });
+        res.absorb(merge_jobs(outs));
+    }
     res.extra.insert("scale_factors".into(), json!(factors.len()));
     res.rule = "case = (configuration, stream, transform): two real instances fed x and c*x (or x+d) step by step; price-valued outputs must scale by c (shift by d), dimensionless ones stay unchanged, within 1e-12 relative to c*M for powers of two and 1e-9 (times the condition number, gated at 1e6) otherwise; SD and Bollinger half-widths compared as variances; non-trivial = step beyond the window".into();
-    res.bounds = format!("all indicators except RSI, periods {{1,2,3,5}}: all 4^{ds} positive scalar streams, all 4^{ds} streams over 3 values + reset, all streams over {{1e300,2e300,9.9e300,4e300}} with factors 2^21, 2^20, 2^-30 (indicators without running sums) (and all 5^(depth-1) streams with a 1e6 spike symbol) / all bar streams of length {dbar} over the grid; scale factors 2^k for k in {} plus 3, 0.1, 7.3, 1e-3; shifts 0.5, 1, 100; period 6001 on a 12007-step stream (factors 3 and 1/8, shift 1000); Maximum(x) = -Minimum(-x) on all 6^{} mixed-sign streams with reset()", if th { "-40..=40".to_string() } else { format!("{:?}", ks) }, if th { 9 } else { 8 });
+    res.bounds = format!("all indicators except RSI, periods {{1,2,3,5}}: all 4^{ds} positive scalar streams, all 4^{ds} streams over 3 values + reset, all streams over {{1e300,2e300,9.9e300,4e300}} with factors 2^21, 2^20, 2^-30 (indicators without running sums) (and all 5^(depth-1) streams with a 1e6 spike symbol) / all bar streams of length {dbar} over the grid; scale factors 2^k for k in {} plus 3, 0.1, 7.3, 1e-3; shifts 0.5, 1, 100; period 6001 on a 12007-step stream (factors 3 and 1/8, shift 1000); Maximum(x) = -Minimum(-x) on all 6^{} mixed-sign streams with reset(), and (with Maximum(4x) = 4 Maximum(x)) on tick-grid walks of 3000 / 20000 steps for periods 6..40", if th { "-40..=40".to_string() } else { format!("{:?}", ks) }, if th { 9 } else { 8 });
     res
 }
